@@ -4,6 +4,6 @@ CONSTANTS
   Fuel = 10
   Tier = "quick"
   SampleMod = 16
-INVARIANTS PagingLossless PrefixDelivered OnlyListed NoDuplicates Ascending StrictlyAfterStart ErrorOnlyWithCause DeclinedAtK BoundedRequests Emit
+INVARIANTS PagingLossless PrefixDelivered OnlyListed NoDuplicates Ascending StrictlyAfterStart ErrorOnlyWithCause DeclinedAtK BoundedRequests Reiterable ClosedFormAgrees Emit
 PROPERTIES StopsWhenDeclined Terminates
 CHECK_DEADLOCK FALSE
